@@ -222,10 +222,100 @@ def random_cut(rng, s, maxpieces=12):
     return [c for c in res if c]
 
 
+def shim_relay(ctx, rng, quick):
+    """helpers.SocketRWShim (the relay between the ssh child's pipes and the socket the Mux uses where the platform
+    has no socketpair-backed stdio): every byte goes through, in order, whatever the pipe accepts per write and
+    whatever the reads return.  Real class, real threads and socketpair; scripted pipe ends.  Implementation only."""
+    import threading
+    import time
+    import sshuttle.helpers as helpers
+    if not hasattr(helpers, "SocketRWShim"):
+        return
+
+    class R(object):
+        def __init__(self, chunks):
+            self.chunks = list(chunks)
+            self.release = threading.Event()
+
+        def read(self, n):
+            if not self.chunks:
+                self.release.wait(10)        # the pipe stays open until the test is over
+                return b""
+            c = self.chunks[0]
+            if len(c) <= n:
+                return self.chunks.pop(0)
+            self.chunks[0] = c[n:]
+            return c[:n]
+
+    class W(object):
+        def __init__(self, mode):
+            self.mode, self.got, self.calls = mode, b"", 0
+
+        def write(self, data):
+            self.calls += 1
+            n = len(data)
+            if self.mode == "one" and n > 1:
+                n = 1
+            elif self.mode == "short" and n > 1:
+                n = rng.randint(1, n - 1)
+            elif self.mode == "once" and self.calls == 2 and n > 1:
+                n = n - 1
+            self.got += bytes(data[:n])
+            return n
+
+        def flush(self):
+            pass
+
+    old_err = sys.stderr
+    for mode in ("full", "short", "once"):
+        for size in ((1, 5000, 40000) if quick else (0, 1, 5, 4096, 40000, 70000)):
+            down = (bytes(rng.randrange(256) for _ in range(min(size, 3000))) * (size // 3000 + 1))[:size]
+            up = down[::-1]
+            r, w = R([up[i:i + 7000] for i in range(0, len(up), 7000)]), W(mode)
+            sys.stderr = open(os.devnull, "w")
+            try:
+                shim = helpers.SocketRWShim(r, w)
+                rf, wf = shim.makefiles()
+                pos = 0
+                while pos < len(down):
+                    pos += wf.write(down[pos:pos + 16000]) or 0
+                got_up = b""
+                while len(got_up) < len(up):
+                    c = rf.read(65536)
+                    if not c:
+                        break
+                    got_up += c
+                # the relay thread needs no more than a moment per write; stop waiting when nothing moves any more
+                last, idle = -1, 0
+                while len(w.got) < len(down) and idle < 600:
+                    time.sleep(0.005)
+                    idle = idle + 1 if len(w.got) == last else 0
+                    last = len(w.got)
+                r.release.set()
+                for f_ in (rf, wf, shim._s2):
+                    try:
+                        f_.close()
+                    except Exception:
+                        pass
+            finally:
+                sys.stderr.close()
+                sys.stderr = old_err
+            ctx.case(("shim", mode, size), nontrivial=size > 0)
+            ctx.count("shim_relay_%s" % mode)
+            if w.got != down:
+                ctx.violation("the pipe relay lost or reordered bytes of the tunnel stream under partial writes",
+                              {"shim": {"write_pattern": mode, "bytes_sent": len(down), "bytes_that_reached_the_pipe": len(w.got),
+                                        "first_difference": next((i for i in range(min(len(w.got), len(down))) if w.got[i] != down[i]), min(len(w.got), len(down)))}})
+            if got_up != up:
+                ctx.violation("the pipe relay lost or reordered bytes read from the pipe",
+                              {"shim": {"bytes_in_pipe": len(up), "bytes_delivered": len(got_up)}})
+
+
 def correspondence(ctx):
     ssnet = load()
     rng = ctx.rng
     quick = ctx.quick()
+    shim_relay(ctx, rng, quick)
     CMDS = [0x4200 + i for i in range(15)] + [0, 65535]
 
     def rand_payload(n):
